@@ -140,6 +140,26 @@ theorem stored_reachable (T : Tree) (ops : List Op) (x : Nat) (hx : x ≠ 0)
   · simp [init, hx] at h1
   · exact ⟨h1, h3⟩
 
+/-! ## Lists of operations -/
+
+theorem run_append (T : Tree) : ∀ (a b : List Op) (s : State), run T s (a ++ b) = run T (run T s a) b := by
+  intro a
+  induction a with
+  | nil => intro b s; rfl
+  | cons x xs ih => intro b s; exact ih b _
+
+theorem delivered_append : ∀ (a b : List Op), delivered (a ++ b) = delivered a ++ delivered b := by
+  intro a
+  induction a with
+  | nil => intro b; rfl
+  | cons x xs ih =>
+    intro b
+    cases x with
+    | deliver y hint => simp [delivered, ih]
+    | verify => simpa [delivered] using ih b
+    | expire => simpa [delivered] using ih b
+    | crash => simpa [delivered] using ih b
+
 /-! ## Deliveries into a node without BLOCK_INVALID entries (a freshly restarted node) -/
 
 /-- no BLOCK_INVALID entry in the status map -/
